@@ -965,6 +965,61 @@ Proof.
   - exists GFinish. simpl. rewrite Esd, EP, EA. eauto.
 Qed.
 
+(* the same, sharpened: an enabled step can always be chosen so that it asks the
+   scheduler for a new file only when NO file is active.  The model leaves the
+   scheduler's pick free and always grants it; the real hybrid scheduler may
+   refuse while small files are running (C17_sched_refusal) but never refuses when
+   nothing is active (C17_files_live) - so its refusals cannot stall a transfer. *)
+Ltac done_na := eexists; split; [reflexivity | let Hq := fresh "Hq" in intros ? Hq; first [discriminate Hq | reflexivity]].
+
+Lemma ginv_progress_idle s : GInv s -> 1 <= g_par s -> g_gated s = false ->
+  gfinal s = true \/ exists e s', gstep s e = Some s' /\ (forall f, e = GActivate f -> g_active s = []).
+Proof.
+  unfold GInv. intros I Hp Hg.
+  assert (Hp0 : (0 <? g_par s) = true) by (apply Nat.ltb_lt; lia).
+  destruct (g_recv_done s) eqn:Erd.
+  { left. unfold gfinal. rewrite Erd. pose proof (i_fin I) as F. unfold Fin in F.
+    destruct (g_sender_done s); [reflexivity|]. destruct F; discriminate. }
+  right. destruct (g_s2r s) as [|m rest] eqn:EC.
+  2: { exists GRecvCtl. simpl. rewrite Erd, Hg, EC. simpl. destruct m as [f t|f|]; [done_na| |done_na].
+       pose proof (i_fifo I) as F. simpl in F. destruct F as [F _].
+       destruct (find_rfile f (g_rbegun s)) eqn:Er; [destruct (Nat.eqb (r_rem r) 0); done_na|].
+       apply cnt_In in F. rewrite cnt_app in F. apply find_rfile_none in Er.
+       assert (Hm : memn f (g_rdone s) = true) by (apply memn_cnt; lia). rewrite Hm. done_na. }
+  destruct (g_r2s s) as [|f D] eqn:ED.
+  2: { destruct (i_r2s I f) as [_ R]. destruct R as [Hz Ha]; [left; reflexivity|].
+       apply cnt_find_afile in Ha. destruct Ha as [a Ha]. destruct (a_end a) eqn:Ee.
+       - exists GAck. simpl. rewrite ED, Ha, Ee. done_na.
+       - exists (GSendEnd f). simpl. rewrite Ha, Ee. destruct (i_done I Hz Ha) as (_ & X & _).
+         rewrite X, Nat.eqb_refl. simpl. done_na. }
+  destruct (g_data s) as [|[w f] Q] eqn:EQ.
+  2: { exists (GRecvChunk w). simpl. rewrite Erd, EQ. simpl. rewrite Nat.eqb_refl.
+       destruct (find_rfile f (g_rbegun s)) eqn:Er; [destruct (r_rem r) as [|[|m]]; done_na|].
+       apply find_rfile_none in Er.
+       assert (Hact : 0 < cnt f (map a_id (g_active s))).
+       { apply (i_data I). unfold qcount. simpl. rewrite Nat.eqb_refl. lia. }
+       pose proof (i_st2 I f Hact) as S2. simpl in S2.
+       assert (Hm : memn f (g_rdone s) = true) by (apply memn_cnt; lia). rewrite Hm. done_na. }
+  destruct (g_active s) as [|a A] eqn:EA.
+  2: { assert (Ha : find_afile (a_id a) (a :: A) = Some a) by (simpl; rewrite Nat.eqb_refl; reflexivity).
+       destruct (i_act I Ha) as [L1 L2]. destruct (a_next a <? a_total a) eqn:El.
+       - exists (GSendChunk 0 (a_id a)). simpl. rewrite Hp0, EA, Ha, El. done_na.
+       - apply Nat.ltb_ge in El. assert (Ent : a_next a = a_total a) by lia. destruct (a_end a) eqn:Ee.
+         + exfalso. destruct (i_end I Ha Ee) as [X|[X|(r & X & Y)]].
+           * destruct X.
+           * destruct (i_done I X Ha) as (_ & _ & []).
+           * destruct (i_rb I X) as (b & Hb & G1 & _). rewrite Ha in Hb. injection Hb as <-.
+             unfold qcount in G1. simpl in G1. lia.
+         + exists (GSendEnd (a_id a)). simpl. rewrite EA, Ha, Ee, Ent, Nat.eqb_refl. simpl. done_na. }
+  destruct (g_pending s) as [|[f t] P] eqn:EP.
+  2: { exists (GActivate f). simpl. rewrite EP, EA. simpl. rewrite Nat.eqb_refl, Hp0. done_na. }
+  destruct (g_sender_done s) eqn:Esd.
+  - exfalso. pose proof (i_fin I) as F. unfold Fin in F. destruct F as (_ & _ & l & El & _).
+    destruct l; discriminate.
+  - exists GFinish. simpl. rewrite Esd, EP, EA. done_na.
+Qed.
+
+
 (* ---------------------------------------------------------------- the theorems *)
 
 Theorem gate_progress : forall par files s,
@@ -995,3 +1050,14 @@ Qed.
 
 Print Assumptions gate_progress.
 Print Assumptions gate_final_all_acked.
+
+Theorem gate_progress_idle : forall par files s,
+  1 <= par -> NoDup (map fst files) ->
+  reachable par false files s ->
+  gfinal s = true \/ exists e s', gstep s e = Some s' /\ (forall f, e = GActivate f -> g_active s = []).
+Proof.
+  intros par files s Hp Hn [evs H].
+  destruct (ginv_run evs (ginit par false files) s eq_refl (ginv_init par false files Hn) H) as (I & Hg & Hpar & _).
+  apply ginv_progress_idle; [exact I| |exact Hg]. rewrite Hpar. simpl. exact Hp.
+Qed.
+Print Assumptions gate_progress_idle.
